@@ -2590,3 +2590,42 @@ def accepted_command_effect(ctx, rule):
                         f'{cmd}() can return normally without having set the run state to {want} (an early return in front of the assignment, or the assignment on '
                         f'one branch only): the command is accepted -- its notification may even be fired -- but has no effect, the run goes on as if nothing was asked',
                         where=f'{SIM}.{cmd}')
+
+
+# ------------------------------------------------------------------------------------------------ plain numbers and quantities
+def plain_number_tests(ctx, rule, module_names=('simulator', 'simevent', 'eventlist', 'experiment')):
+    """A quantity IS a float (Quantity subclasses float), so `isinstance(x, (int, float))` is true for a Duration as well.  Code that reads a
+    *plain* number as a quantity in some unit -- `Duration(float(x), unit)` -- under such a test re-reads a Duration's SI value in that unit:
+    30 min becomes 1800 min.  The test must exclude quantities (`type(x) in (int, float)`, or `not isinstance(x, Quantity)`)."""
+    prog = ctx.prog
+    ctx.rule(rule, 'a value is re-read as a quantity in a unit only when it is a plain number: isinstance(x, float) also holds for quantities')
+    quantities = {c for c in prog.classes if 'Quantity' in prog.mro(c)}
+    n = 0
+    for oc, fn, mod in prog.functions():
+        if mod.name not in module_names:
+            continue
+        g = None
+        for c in walk_shallow(fn):
+            if not (isinstance(c, ast.Call) and isinstance(c.func, ast.Name) and c.func.id in quantities and len(c.args) == 2):
+                continue
+            names = {x.id for x in ast.walk(c.args[0]) if isinstance(x, ast.Name)} & {a.arg for a in fn.args.args}
+            if not names:
+                continue
+            n += 1
+            p = sorted(names)[0]
+            g = g or CFG(fn)
+            node = _node_containing(g, c)
+            guards = [(unparse(cn.ast), br) for (cn, br) in g.guard_branches(node, atoms=True)] if node is not None else []
+            loose = [t for (t, br) in guards if br and t.startswith('isinstance(') and f'({p},' in t.replace(' ', '').replace('isinstance(', '(', 1)
+                     and ('float' in t or 'int' in t)]
+            exact = any((br and t.startswith(f'type({p})') and (' in ' in t or ' is ' in t or '==' in t)) or
+                        (not br and t.startswith('isinstance(') and any(q in t for q in quantities | {'Quantity'})) for (t, br) in guards)
+            ok = not loose or exact
+            where_ = f'{oc.name}.{fn.name}' if oc else fn.name
+            ctx.ob(rule, f'{where_}:{p}', ok, sample=f'{where_}: `{short(c, 50)}` under {[t for t, _b in guards][:3]}')
+            if not ok:
+                ctx.finding(rule, f'{where_}:{p}:quantity-as-plain-number', oc, c,
+                            f'`{short(c, 60)}` is reached when `{loose[0]}` holds, which is also true for a {c.func.id} (a quantity is a float): a {c.func.id} argument is rebuilt '
+                            f'from its SI value read in the display unit, so with a display unit other than the base unit delays, times and bounds are scaled by the unit factor',
+                            where=where_, module=mod)
+    ctx.note(f'{rule}: {n} constructions of a quantity from a parameter examined')
